@@ -178,6 +178,15 @@ def root_cause(config):
     return None
 
 
+def _brief(value):
+    """A table or text for a message: long cells and texts are cut (the replay file holds the whole case)."""
+    if isinstance(value, str):
+        return value if len(value) <= 200 else "%s... (%d characters)" % (value[:60], len(value))
+    if isinstance(value, list):
+        return [_brief(item) for item in value]
+    return value
+
+
 def attempt(cid, config, table, via, function):
     """None if the table round-trips, else (signature, message).
 
@@ -193,7 +202,7 @@ def attempt(cid, config, table, via, function):
         else:
             signature = "C12|roundtrip|%s|%s|%s" % (_mode(config), config["quoting"], type(error).__name__)
         return signature, "%s: writing and reading %r under %r raised %s: %s" % (
-            via, table, _show(config), type(error).__name__, error)
+            via, _brief(table), _show(config), type(error).__name__, str(error)[:300])
     if back == table:
         return None
     if cause:
@@ -201,7 +210,7 @@ def attempt(cid, config, table, via, function):
     else:
         signature = "C12|roundtrip|%s|%s|differs" % (_mode(config), config["quoting"])
     return signature, "%s: under %r the table %r was written as %r and read back as %r" % (
-        via, _show(config), table, text, back)
+        via, _show(config), _brief(table), _brief(text), _brief(back))
 
 
 def _mode(config):
@@ -299,7 +308,8 @@ def check_case(sub, case, shrink=False):
         classes.append("config:" + root_cause(config))
     nontrivial = bool(specials & present)
     sub.case((sorted(config.items()), table), nontrivial, classes,
-             sample={"config": config, "table": table} if nontrivial and len(table) <= 3 else None, evals=0)
+             sample={"config": config, "table": table} if nontrivial and len(table) <= 3 and all(
+                 len(cell) < 200 for row in table for cell in row) else None, evals=0)
     rowio_failed = False
     trips = ROUNDTRIPS
     if "\r" in present or "\n" in present or any(ord(ch) > 127 for ch in present) or "encoding" in config:
@@ -330,6 +340,9 @@ def check_case(sub, case, shrink=False):
 # round trip they are text like any other
 MAGIC_CELLS = ["sep=", "sep=;", "sep=,", "ID", "\ufeffid", "#", "# comment", "//", "%", "<?xml", "PK", "=1+1", "@a", "+1",
                "-1", "NULL", "null", "None", "\\N", "NA", "N/A", "1e5", "0x10", "true", "00123", "1,5", "''", '""']
+
+
+LONG_CELL_SIZES = (8191, 65535, 131070, 131071, 131072, 262143, 400000)  # plus one closing character
 
 
 def magic_tables(config, number):
@@ -419,6 +432,12 @@ def _enumeration_shard(args):
             check_case(local, {"config": config, "table": table, "columns": 1}, shrink=True)
         # the same tables behind a declared header of 1 or 2 rows (every 4th configuration): what a header row holds
         # - line breaks, quotes, delimiters - must not shift the rows behind it
+        if number % 320 == 0:
+            # cells longer than the buffers and limits of the layers below (csv's default field size limit is 131072)
+            for size in LONG_CELL_SIZES:
+                atom = atoms_of(config)[(number // 320 + size) % len(atoms_of(config))]
+                check_case(local, {"config": config, "table": [["k", (atom * size)[:size] + "."], ["x", "y"]],
+                                   "columns": 2})
         if number % 4 == 0:
             with_header = dict(config, header=1 + number // 4 % 2)
             for table in systematic_tables(config)[7:]:
@@ -457,6 +476,11 @@ def table_cases(draw):
         table[0][0] = draw(st.sampled_from(MAGIC_CELLS))
         if draw(st.booleans()):
             table[0][1:] = [""] * (columns - 1)
+    if table and draw(st.integers(0, 39)) == 0:
+        y = draw(st.integers(0, len(table) - 1))
+        x = draw(st.integers(0, columns - 1))
+        size = draw(st.sampled_from(LONG_CELL_SIZES))
+        table[y][x] = (draw(st.sampled_from(atoms)) * size)[:size] + "."
     # header rows are rows like any other for the writer and for the csv layer (they may hold line breaks and quotes)
     if draw(st.integers(0, 3)) == 0:
         config["header"] = draw(st.integers(1, 2))
